@@ -9,7 +9,27 @@
 //!  * for every lock-shaped static: every occurrence of its name in the file
 //!    that declares it, classified as `lock` (`NAME.lock()` / `NAME\n.lock()`),
 //!    `read` / `write` (for an `RwLock`) or `other`; a lock-shaped static that is
-//!    `pub` (reachable from other files) is an extraction failure.
+//!    `pub` (reachable from other files) is an extraction failure;
+//!  * for every lock-shaped static, every function of the declaring file with an
+//!    occurrence of its name: its SECTIONS — the code from one acquisition to the
+//!    next (or the end of the function) — with the table operations called in it
+//!    in source order, by method name: `lookup` (`get`, `contains_key`, `entry`,
+//!    `iter`, …) and `insert` (`insert`, `push`, `or_insert_with`, `extend`,
+//!    `set`, …). The decision over these facts: a function that looks a key up
+//!    under one acquisition and inserts under a later one must look it up again
+//!    before inserting (double-checked get-or-insert);
+//!  * for every lock-shaped static, `entryCells`: the number of fields with
+//!    interior mutability (`OnceLock`, `OnceCell`, `Mutex`, `RwLock`, `Cell`,
+//!    `RefCell`, `UnsafeCell`, atomics) inside the structs / enums of the crate
+//!    that the static's type mentions, inlined by name across `src/` — state of a
+//!    table entry that can change after the entry was inserted;
+//!  * `nameSources`: for every arm of the `match ty.description` in
+//!    `TypeChecker::rust_type_to_roto_type` (src/typechecker/mod.rs — the function
+//!    that turns the Rust signature of every registered function / constant into
+//!    Roto types): where the Roto NAME of a registered type comes from — the
+//!    runtime's own list (`runtime.get_runtime_type(..)` and no `static` of the crate in the arm), anything else
+//!    (`.foreign`: the process-global entry, a cache), or no name at all
+//!    (`.structural`: the arm only recurses).
 use crate::find;
 use proc_macro2::{TokenStream, TokenTree};
 use quote::ToTokens;
@@ -177,6 +197,218 @@ fn uses_of(file: &syn::File, name: &str) -> Vec<&'static str> {
     out
 }
 
+
+const LOOKUPS: [&str; 16] = [
+    "get", "get_mut", "contains_key", "contains", "entry", "iter", "find", "position", "get_key_value", "binary_search", "first", "last", "any", "keys",
+    "values", "get_index_of",
+];
+const INSERTS: [&str; 16] = [
+    "insert", "push", "push_back", "push_front", "or_insert", "or_insert_with", "or_insert_with_key", "or_default", "extend", "set", "get_or_insert_with",
+    "get_or_init", "append", "try_insert", "insert_full", "replace",
+];
+
+/// the sections of one function body: (use, ops)
+fn sections_of(body: TokenStream, name: &str) -> Vec<(&'static str, Vec<&'static str>)> {
+    let mut toks = vec![];
+    flatten(body, &mut toks);
+    let mut out: Vec<(&'static str, Vec<&'static str>)> = vec![];
+    let mut i = 0;
+    while i < toks.len() {
+        if toks[i] == Tok::Ident(name.to_string()) {
+            // the declaration of a function-local static: `static NAME :` / `static mut NAME :`
+            if i > 0 && (toks[i - 1] == Tok::Ident("static".into()) || toks[i - 1] == Tok::Ident("mut".into())) {
+                i += 1;
+                continue;
+            }
+            let dot = toks.get(i + 1) == Some(&Tok::Punct('.'));
+            let m = match toks.get(i + 2) {
+                Some(Tok::Ident(m)) if dot => m.clone(),
+                _ => String::new(),
+            };
+            let call = toks.get(i + 3) == Some(&Tok::Open);
+            out.push((
+                match (m.as_str(), call) {
+                    ("lock", true) => ".lock",
+                    ("read", true) => ".read",
+                    ("write", true) => ".write",
+                    _ => ".other",
+                },
+                vec![],
+            ));
+            i += if call { 3 } else { 1 };
+            continue;
+        }
+        if let (Tok::Ident(m), Some(Tok::Open)) = (&toks[i], toks.get(i + 1)) {
+            // a method call `.m(` (not a path call `T::m(`, not a macro)
+            let method = i > 0 && toks[i - 1] == Tok::Punct('.');
+            if method {
+                if let Some(cur) = out.last_mut() {
+                    if LOOKUPS.contains(&m.as_str()) {
+                        cur.1.push(".lookup");
+                    } else if INSERTS.contains(&m.as_str()) {
+                        cur.1.push(".insert");
+                    }
+                }
+            }
+        }
+        i += 1;
+    }
+    out
+}
+
+struct FnFinder<'a> {
+    name: &'a str,
+    fns: Vec<(String, Vec<(&'static str, Vec<&'static str>)>)>,
+    /// occurrences inside functions that are skipped (`#[cfg(test)]` / `#[cfg(feature = "verif-hooks")]`):
+    /// counted (they are among `uses`), not described
+    in_skipped: usize,
+}
+
+impl<'a> FnFinder<'a> {
+    fn body(&mut self, fname: String, block: &syn::Block) {
+        let secs = sections_of(block.to_token_stream(), self.name);
+        if !secs.is_empty() {
+            self.fns.push((fname, secs));
+        }
+    }
+}
+
+impl<'ast, 'a> Visit<'ast> for FnFinder<'a> {
+    fn visit_item_mod(&mut self, m: &'ast syn::ItemMod) {
+        if skip_attrs(&m.attrs) {
+            return;
+        }
+        syn::visit::visit_item_mod(self, m);
+    }
+    fn visit_item_fn(&mut self, f: &'ast syn::ItemFn) {
+        if skip_attrs(&f.attrs) {
+            self.in_skipped += sections_of(f.block.to_token_stream(), self.name).len();
+            return;
+        }
+        self.body(f.sig.ident.to_string(), &f.block);
+    }
+    fn visit_impl_item_fn(&mut self, f: &'ast syn::ImplItemFn) {
+        if skip_attrs(&f.attrs) {
+            self.in_skipped += sections_of(f.block.to_token_stream(), self.name).len();
+            return;
+        }
+        self.body(f.sig.ident.to_string(), &f.block);
+    }
+    fn visit_item_static(&mut self, s: &'ast syn::ItemStatic) {
+        // the initialiser (`LazyLock::new(|| …)`) does not use the table
+        let _ = s;
+    }
+}
+
+const CELLS: [&str; 8] = ["OnceLock", "OnceCell", "LazyLock", "LazyCell", "Mutex", "RwLock", "RefCell", "UnsafeCell"];
+
+fn idents_of(ts: TokenStream) -> Vec<String> {
+    let mut toks = vec![];
+    flatten(ts, &mut toks);
+    toks.into_iter().filter_map(|t| if let Tok::Ident(i) = t { Some(i) } else { None }).collect()
+}
+
+/// the field types (as identifier lists) of every struct / enum called `name` under src/
+fn fields_of(parsed: &[(String, syn::File)], name: &str) -> Vec<Vec<String>> {
+    struct V<'a> {
+        name: &'a str,
+        out: Vec<Vec<String>>,
+    }
+    impl<'ast, 'a> Visit<'ast> for V<'a> {
+        fn visit_item_struct(&mut self, s: &'ast syn::ItemStruct) {
+            if s.ident == self.name && !skip_attrs(&s.attrs) {
+                for f in s.fields.iter() {
+                    self.out.push(idents_of(f.ty.to_token_stream()));
+                }
+            }
+        }
+        fn visit_item_enum(&mut self, e: &'ast syn::ItemEnum) {
+            if e.ident == self.name && !skip_attrs(&e.attrs) {
+                for v in e.variants.iter() {
+                    for f in v.fields.iter() {
+                        self.out.push(idents_of(f.ty.to_token_stream()));
+                    }
+                }
+            }
+        }
+    }
+    let mut v = V { name, out: vec![] };
+    for (_, f) in parsed {
+        v.visit_file(f);
+    }
+    v.out
+}
+
+/// cells inside the crate types the static's type mentions (the static's own wrappers not counted)
+fn entry_cells(parsed: &[(String, syn::File)], ty: &str) -> usize {
+    let mut todo: Vec<String> = ty.split(|c: char| !(c.is_alphanumeric() || c == '_')).filter(|s| !s.is_empty()).map(|s| s.to_string()).collect();
+    let mut seen: Vec<String> = vec![];
+    let mut cells = 0;
+    while let Some(n) = todo.pop() {
+        if seen.contains(&n) {
+            continue;
+        }
+        seen.push(n.clone());
+        for field in fields_of(parsed, &n) {
+            for id in field {
+                if CELLS.contains(&id.as_str()) || id == "Cell" || id.starts_with("Atomic") {
+                    cells += 1;
+                } else if !seen.contains(&id) {
+                    todo.push(id);
+                }
+            }
+        }
+    }
+    cells
+}
+
+/// the arms of `match ty.description` in `TypeChecker::rust_type_to_roto_type`
+fn name_sources(repo: &Path, static_names: &[String]) -> Result<Vec<(String, &'static str)>, String> {
+    let file = find::parse(repo, "src/typechecker/mod.rs")?;
+    struct F {
+        block: Option<syn::Block>,
+    }
+    impl<'ast> Visit<'ast> for F {
+        fn visit_impl_item_fn(&mut self, f: &'ast syn::ImplItemFn) {
+            if f.sig.ident == "rust_type_to_roto_type" && !skip_attrs(&f.attrs) {
+                self.block = Some(f.block.clone());
+            }
+        }
+    }
+    let mut f = F { block: None };
+    f.visit_file(&file);
+    let block = f.block.ok_or("src/typechecker/mod.rs: fn rust_type_to_roto_type not found")?;
+    struct M<'a> {
+        arms: Vec<(String, &'static str)>,
+        seen: usize,
+        statics: &'a [String],
+    }
+    impl<'ast, 'a> Visit<'ast> for M<'a> {
+        fn visit_expr_match(&mut self, m: &'ast syn::ExprMatch) {
+            let scrutinee = m.expr.to_token_stream().to_string().replace(' ', "");
+            if !scrutinee.ends_with(".description") {
+                syn::visit::visit_expr_match(self, m);
+                return;
+            }
+            self.seen += 1;
+            for arm in &m.arms {
+                let pat = arm.pat.to_token_stream().to_string().replace(' ', "");
+                let body = idents_of(arm.body.to_token_stream());
+                let names = body.iter().any(|i| i == "TypeName" || i == "Name");
+                // the runtime's own list, and no process-global state (a `static` of the crate) in the arm
+                let own = body.windows(2).any(|w| w[0] == "runtime" && w[1] == "get_runtime_type") && !body.iter().any(|i| self.statics.contains(i));
+                self.arms.push((pat, if !names { ".structural" } else if own { ".ownList" } else { ".foreign" }));
+            }
+        }
+    }
+    let mut m = M { arms: vec![], seen: 0, statics: static_names };
+    m.visit_block(&block);
+    if m.seen != 1 {
+        return Err(format!("src/typechecker/mod.rs: rust_type_to_roto_type has {} matches over `.description` (expected 1)", m.seen));
+    }
+    Ok(m.arms)
+}
+
 pub fn c12globals(repo: &Path) -> Result<String, String> {
     let mut files = vec![];
     rs_files(&repo.join("src"), &mut files)?;
@@ -212,20 +444,47 @@ pub fn c12globals(repo: &Path) -> Result<String, String> {
         } else {
             vec![]
         };
+        let (fns, cells) = if lockish {
+            let f = &parsed.iter().find(|(r, _)| *r == st.file).unwrap().1;
+            let mut ff = FnFinder { name: &st.name, fns: vec![], in_skipped: 0 };
+            ff.visit_file(f);
+            // every occurrence of the name must be inside a function the scan sees
+            let in_fns: usize = ff.fns.iter().map(|(_, s)| s.len()).sum::<usize>() + ff.in_skipped;
+            if in_fns != uses.len() {
+                return Err(format!("{}: {} of the {} occurrences of {} are outside the functions of the file (closure in a const / macro?)", st.file, uses.len() - in_fns.min(uses.len()), uses.len(), st.name));
+            }
+            (ff.fns, entry_cells(&parsed, &st.ty))
+        } else {
+            (vec![], 0)
+        };
         if !first {
             s.push_str(",\n");
         }
         first = false;
+        let fns_txt: Vec<String> = fns
+            .iter()
+            .map(|(n, secs)| {
+                let secs: Vec<String> = secs.iter().map(|(u, ops)| format!("{{ use := {u}, ops := [{}] }}", ops.join(", "))).collect();
+                format!("\n        /- fn {n} -/ {{ sections := [{}] }}", secs.join(", "))
+            })
+            .collect();
         s.push_str(&format!(
-            "    -- {} in {}: {}\n    {{ kind := {}, isMut := {}, uses := [{}] }}",
+            "    -- {} in {}: {}\n    {{ kind := {}, isMut := {}, uses := [{}],\n      fns := [{}],\n      entryCells := {} }}",
             st.name,
             st.file,
             st.ty,
             st.kind,
             st.is_mut,
-            uses.join(", ")
+            uses.join(", "),
+            fns_txt.join(","),
+            cells
         ));
     }
+    s.push_str("]\n\n/-- where `TypeChecker::rust_type_to_roto_type` takes the Roto name of a registered type from, per arm of its match over `ty.description` -/\ndef nameSources : List NameSource := [");
+    let static_names: Vec<String> = statics.iter().map(|st| st.name.clone()).collect();
+    let arms = name_sources(repo, &static_names)?;
+    let txt: Vec<String> = arms.iter().map(|(p, k)| format!("\n  /- {p} -/ {k}")).collect();
+    s.push_str(&txt.join(","));
     s.push_str("]\n\nend RotoV.Gen.C12Globals\n");
     Ok(s)
 }
